@@ -58,7 +58,13 @@ def main():
                  caught_by=sorted(caught),
                  note=NOTES.get(sid, ""))
         json.dump(m, open(os.path.join(dst, "meta.json"), "w"), indent=1, ensure_ascii=False)
-        index.append((sid, meta.get("property"), confirmed, sorted(caught), NOTES.get(sid, "")))
+        note = NOTES.get(sid, "")
+        if not note and os.path.isdir(os.path.join(src, sid + "2")):
+            note = ("no longer applies: a later fix: commit in /repo touches neighbouring lines; re-applied onto the repaired "
+                    "tree (3-way merge, content unchanged) as %s2" % sid)
+            m["note"] = note
+            json.dump(m, open(os.path.join(dst, "meta.json"), "w"), indent=1, ensure_ascii=False)
+        index.append((sid, meta.get("property"), confirmed, sorted(caught), note))
     with open(os.path.join(out, "INDEX.md"), "w") as f:
         f.write("# Seeded changes (written by independent sub-agents that saw only the property text)\n\n")
         f.write("| id | breaks | confirmed (applies, suite passes, demo fails with / passes without) | caught by | note |\n|---|---|---|---|---|\n")
